@@ -455,6 +455,11 @@ pub fn labels(c: &Case, r: &RunOut) -> Vec<&'static str> {
     if c.root.children.len() > 12 {
         l.push("len_gt_12");
     }
+    match c.root.variant {
+        1 => l.push("children_without_drop_glue"),
+        2 => l.push("values_without_drop_glue"),
+        _ => {}
+    }
     l
 }
 
